@@ -220,6 +220,13 @@ func judgeC16Raw(c *Ctx, sc *Scenario) *Violation {
 // (so bytes of an older, longer output that survive behind the new text are seen), nothing else touched.
 func c16RealOracle(sc *Scenario, r *Result, rr *RealResult) *Violation {
 	if rr.Watchdog {
+		// the simulated run of the very same scenario ended by itself (the caller checked that); a shipped binary that
+		// is still running after the wall-clock watchdog does something the simulated disk does not show it (reads
+		// files past the seam, waits for something): reported, with the enormous margin stated
+		if r.Ticks < sc.TickBudget/10 || sc.TickBudget == 0 {
+			return &Violation{Class: "real-disk", Signature: "real-disk:hang",
+				Detail: fmt.Sprintf("the simulated run ends after %d steps with exit %d; the shipped fc on a real directory holding the same files was still running after %v", r.Ticks, r.Exit, watchdog)}
+		}
 		harnessFail("watchdog on the real-directory run")
 	}
 	if (r.Exit == 0) != (rr.Exit == 0) {
@@ -375,6 +382,12 @@ func c16BaseScenario(c *Ctx, r *common.Rng, run int, pools [][]*Program) *Scenar
 				sc.Note += "|odd-name"
 			}
 		}
+	case 9:
+		// argument spellings other tools give a meaning to: a response file naming itself, an option, an empty string
+		sc.Disk.Put("lists/self.txt", []byte("@self.txt\n@lists/self.txt\nself.txt\n@all.txt\n"), "response file naming itself")
+		sc.Disk.Put("lists/all.txt", []byte("@self.txt\n@lists/self.txt\n"), "response file")
+		sc.Argv = append(sc.Argv, r.Pick("@lists/self.txt", "@lists/all.txt", "--help", "-", "", "*.fo", "@"))
+		sc.Note += "|odd-argument"
 	case 8:
 		if len(sc.Argv) > 0 {
 			last := sc.Argv[len(sc.Argv)-1]
